@@ -127,8 +127,33 @@ def gen_cases(tier, seed):
             cases.append({'kind': 'history', 'steps': steps,
                           'pipelined': True, 'gated': False,
                           'release': 'lifo', 'gate_begin': False,
-                          'exec_order': 'lifo', 'chunk': chunk,
+                          'exec_order': 'late_lifo', 'chunk': chunk,
                           'cseed': 5})
+    # ... and a second request for the *same* new user overtaking that
+    # user's begin_auth (it needs no config reload of its own)
+    for steps in ([['none', 'alice'], ['pk_signed', 'bob', 'X', 'garbage'],
+                   ['pk_signed', 'bob', 'A', 'right']],
+                  [['password', 'alice', 'wrong'], ['none', 'bob'],
+                   ['pk_signed', 'bob', 'R', 'right']],
+                  [['pk_query', 'alice', 'A'], ['password', 'carol', 'wrong'],
+                   ['pk_signed', 'carol', 'A', 'right']]):
+        for eo in ('eager', 'late_fifo', 'late_lifo'):
+            cases.append({'kind': 'history', 'steps': steps,
+                          'pipelined': True, 'gated': False,
+                          'release': 'fifo', 'gate_begin': False,
+                          'exec_order': eo, 'chunk': 'all', 'cseed': 6})
+
+    # found by the thorough tier under real thread timing, pinned to the
+    # executor schedules that reproduce it deterministically
+    for k in (17, 22, 24, 28, 42):
+        cases.append({'kind': 'history', 'steps': [
+            ['none', 'mallory'], ['password', 'alice', 'own'],
+            ['kbdint', 'alice', 'alice'], ['password', 'alice', 'wrong'],
+            ['pk_signed', 'bob', 'C', 'wrong_session'],
+            ['pk_signed', 'bob', 'R', 'right']],
+            'pipelined': True, 'gated': True, 'release': 'lifo',
+            'gate_begin': False, 'exec_order': f'steps:rand:{k}',
+            'chunk': 'record', 'cseed': 1062354836})
 
     for i in range(n):
         k = rng.choice([1, 2, 2, 3, 3, 4, 6])
@@ -151,7 +176,8 @@ def gen_cases(tier, seed):
                       'gated': gated,
                       'release': rng.choice(['fifo', 'lifo', 'random']),
                       'gate_begin': gated and rng.random() < 0.5,
-                      'exec_order': rng.choice(['fifo', 'fifo', 'lifo']),
+                      'exec_order': rng.choice(['thread', 'eager', 'late_fifo', 'late_lifo',
+                                             'steps:rand', 'steps:rand', 'steps:rand']),
                       'chunk': rng.choice(['all', 'record', 'random']),
                       'cseed': rng.randrange(1 << 30)})
 
@@ -165,7 +191,8 @@ def gen_cases(tier, seed):
                       'pipelined': True, 'gated': True,
                       'release': rng.choice(['fifo', 'lifo']),
                       'gate_begin': rng.random() < 0.7,
-                      'exec_order': rng.choice(['fifo', 'lifo']),
+                      'exec_order': rng.choice(['eager', 'late_fifo', 'late_lifo',
+                                             'steps:rand', 'steps:rand']),
                       'chunk': 'all', 'cseed': rng.randrange(1 << 30)})
 
     # certificate credentials: every way a certificate can be wrong
@@ -203,7 +230,8 @@ def gen_cases(tier, seed):
                       'release': rng.choice(['fifo', 'fifo', 'lifo',
                                              'random']),
                       'gate_begin': rng.random() < 0.7,
-                      'exec_order': rng.choice(['fifo', 'lifo']),
+                      'exec_order': rng.choice(['eager', 'late_fifo', 'late_lifo',
+                                             'steps:rand', 'steps:rand']),
                       'chunk': 'all', 'cseed': rng.randrange(1 << 30)})
 
     npos = 14 if tier == 'quick' else 200
@@ -405,8 +433,10 @@ def _run_history(case, mon, viol):
         pending = []
         # the per-user config reload runs in an executor: let later jobs
         # finish first in some cases (a legal thread schedule)
-        loop.exec_order = case.get('exec_order', 'fifo')
-        if loop.exec_order == 'lifo':
+        loop.exec_order = case.get('exec_order', 'thread')
+        if loop.exec_order == 'steps:rand':
+            loop.exec_order = f'steps:rand:{case["cseed"] % 1000}'
+        if loop.exec_order != 'thread':
             mon['exec_reordered'] += 1
 
         def mk():
